@@ -8,7 +8,8 @@
 //! R4 a repetition body that is solely a separator / zero-or-more wildcard
 //! R5 an alternation branch / optional repetition that can root the expression
 //! R6 repetition bounds ordered and non-degenerate
-//! (R7, invariant size, is only exercised by a directed family: generated sizes are tiny)
+//! R7 invariant text of a sub-expression at or above the size limit (64 KiB); decided only where
+//!    the statement decides it (see `size_verdict`)
 
 use crate::ast::*;
 use crate::gen::{ends_tok, starts_tok, K_B, K_Z};
@@ -21,6 +22,7 @@ pub enum Rule {
     R4SingularBody,
     R5Rooting,
     R6Bounds,
+    R7Size,
 }
 
 #[derive(Clone, Debug, PartialEq, Eq)]
@@ -146,9 +148,138 @@ fn check_concat(e: &Expr, before: u8, acc: &mut Acc) {
     }
 }
 
+// ------------------------------------------------------------------------------------------------
+// R7: invariant size
+
+pub const SIZE_LIMIT: u64 = 0x10000;
+
+/// size in bytes of the text a sub-expression matches, as far as the statement decides it
+#[derive(Clone, Copy, Debug, PartialEq, Eq)]
+enum Sz {
+    /// every match has exactly this many bytes and the text is invariant
+    Inv(u64),
+    /// the text (and its size) varies
+    Var,
+    /// not decided here (classes, caseless literals with casing, alternations of several
+    /// invariant branches)
+    Unknown,
+}
+
+fn has_casing(s: &str) -> bool {
+    s.chars().any(|c| c.to_lowercase().ne(c.to_uppercase()))
+}
+
+fn size_tok(t: &Tok) -> Sz {
+    match t {
+        Tok::Lit { text, ci } => {
+            if *ci && has_casing(text) {
+                Sz::Unknown
+            }
+            else {
+                Sz::Inv(text.len() as u64)
+            }
+        },
+        Tok::Sep => Sz::Inv(1),
+        Tok::One | Tok::Zom { .. } | Tok::Tree { .. } => Sz::Var,
+        Tok::Class { .. } => Sz::Unknown,
+        Tok::Alt(bs) => {
+            if bs.len() == 1 {
+                size_concat(&bs[0])
+            }
+            else if bs.iter().any(|b| size_concat(b) == Sz::Var) {
+                Sz::Var
+            }
+            else {
+                Sz::Unknown
+            }
+        },
+        Tok::Rep { body, lo, hi, .. } => match (size_concat(body), hi) {
+            (Sz::Inv(n), Some(h)) if *h == *lo => Sz::Inv(n.saturating_mul(*lo as u64)),
+            (Sz::Inv(_), _) => Sz::Var,
+            (other, _) => other,
+        },
+        Tok::Flag(_) => Sz::Inv(0),
+    }
+}
+
+fn size_concat(e: &Expr) -> Sz {
+    let mut sum = 0u64;
+    let mut unknown = false;
+    for t in e.iter() {
+        match size_tok(t) {
+            Sz::Var => return Sz::Var,
+            Sz::Unknown => unknown = true,
+            Sz::Inv(n) => sum = sum.saturating_add(n),
+        }
+    }
+    if unknown {
+        Sz::Unknown
+    }
+    else {
+        Sz::Inv(sum)
+    }
+}
+
+/// upper estimate of the bytes of (possibly) invariant text an expression can spell out in a row:
+/// exact for literals and separators, generous for what is undecided; variant tokens do not break
+/// the run (conservative)
+fn potential(e: &Expr) -> u64 {
+    e.iter()
+        .map(|t| match t {
+            Tok::Lit { text, ci } => {
+                if *ci && has_casing(text) {
+                    3 * text.len() as u64
+                }
+                else {
+                    text.len() as u64
+                }
+            },
+            Tok::Sep => 1,
+            Tok::Class { .. } | Tok::One => 4,
+            Tok::Alt(bs) => bs.iter().map(potential).max().unwrap_or(0),
+            Tok::Rep { body, lo, hi, .. } => potential(body).saturating_mul(hi.unwrap_or(*lo).max(*lo).max(1) as u64),
+            _ => 0,
+        })
+        .fold(0u64, |a, b| a.saturating_add(b))
+}
+
+/// Some(true): some sub-expression (a token, a branch, a repetition body or the whole expression)
+/// has invariant text of at least the limit — must fail.  Some(false): no way to reach the limit.
+/// None: a lot of invariant text, but spread over sub-expressions that are variant or undecided
+/// as a whole — the statement does not decide.
+pub fn size_verdict(e: &Expr) -> Option<bool> {
+    if potential(e) < SIZE_LIMIT {
+        return Some(false);
+    }
+    fn any_oversized(e: &Expr) -> bool {
+        if matches!(size_concat(e), Sz::Inv(n) if n >= SIZE_LIMIT) {
+            return true;
+        }
+        e.iter().any(|t| {
+            matches!(size_tok(t), Sz::Inv(n) if n >= SIZE_LIMIT)
+                || match t {
+                    Tok::Alt(bs) => bs.iter().any(any_oversized),
+                    Tok::Rep { body, .. } => any_oversized(body),
+                    _ => false,
+                }
+        })
+    }
+    if any_oversized(e) {
+        Some(true)
+    }
+    else {
+        None
+    }
+}
+
 pub fn verdict(e: &Expr) -> RuleVerdict {
     let mut acc = Acc { fails: Vec::new(), unspecified: None };
     check_concat(e, 0, &mut acc);
+    match size_verdict(e) {
+        Some(true) => acc.fails.push(Rule::R7Size),
+        Some(false) => {},
+        None => acc.unspecified = acc.unspecified.or(Some("invariant text at the size limit spread over variant sub-expressions")),
+    }
     if !acc.fails.is_empty() {
         acc.fails.sort();
         acc.fails.dedup();
@@ -176,5 +307,6 @@ pub fn rule_message(r: Rule) -> &'static str {
         Rule::R4SingularBody => "singular",
         Rule::R5Rooting => "uncertain or overlapping roots",
         Rule::R6Bounds => "incompatible repetition bounds",
+        Rule::R7Size => "oversized invariant expression",
     }
 }
